@@ -185,9 +185,17 @@ def parseParent (s : String) : Option Deadline :=
 
 def obsOf (l : Line) (k : String) : String := kvStr l.obs k "?"
 
-def runRestLine (r : Report) (sec : Nat) (l : Line) (gated : Bool) : Report := Id.run do
+/-- `eng`: the engine of the section for `erest` lines (duration of the route's middleware from the engine model) -/
+def runRestLine (r : Report) (sec : Nat) (l : Line) (gated : Bool) (eng : Option Eng := none) : Report := Id.run do
   let mut r := r
   let parsed : Option (Option Kind × Nat × ReqHdr × Int × List Act × Bool) :=
+    match eng with
+    | some e =>
+      match l.op with
+      | _ :: g :: kind :: k :: hdr :: acts => do
+        pure ((← parseKind kind), (← k.toNat?), (← parseHdr hdr), (← e.duration (← g.toNat?)), (← parseActs acts), kind = "timer")
+      | _ => none
+    | none =>
     if gated then
       match l.op with
       | _ :: kind :: k :: hdr :: dur :: acts => do
@@ -211,8 +219,8 @@ def runRestLine (r : Report) (sec : Nat) (l : Line) (gated : Bool) : Report := I
       else (List.range (n + 1)).map (fun j => simRest script kind j hdr dur)
     match cands.find? (fun c => c.render gated = impl) with
     | some c =>
-      r := r.addCover (if gated then "rest-" ++ c.branch else "race-" ++ c.branch)
-      if timer then r := r.addCover "rest-real-timer"
+      r := r.addCover ((if eng.isSome then "eng-" else if gated then "rest-" else "race-") ++ c.branch)
+      if timer then r := r.addCover (if eng.isSome then "eng-real-timer" else "rest-real-timer")
       if !gated then r := r.addCover s!"race-expiry-at-{(cands.findIdx? (fun c => c.render gated = impl)).getD 0}"
     | none =>
       let m := match cands.head? with | some c => c.render gated | none => "?"
@@ -452,6 +460,81 @@ def runDlSelLine (r : Report) (sec : Nat) (l : Line) : Report :=
     | _, _, _, _ => r.mismatch sec l.idx "bad-op" (joinSp l.op)
   | _ => runDlLine r sec l
 
+
+/-! ### rest engine wiring (sections `wrapper=eng`) -/
+
+def parseRouteOpt (s : String) : Option RouteOpt :=
+  if s = "sse" then some .sse
+  else if s = "prio" || s = "mb" then some .other
+  else if s.startsWith "t" then (s.drop 1).toInt?.map (fun ms => RouteOpt.timeout (ms * 1000000))
+  else none
+
+def parseGroups (s : String) : Option (List (List RouteOpt)) :=
+  (s.splitOn ",").mapM fun g => if g = "-" then some [] else (g.splitOn "+").mapM parseRouteOpt
+
+def parseMw : String → Option MwMode
+  | "on" => some .on
+  | "off" => some .off
+  | "chain" => some .chain
+  | _ => none
+
+structure EngSec where
+  eng    : Eng
+  groups : List (List RouteOpt)
+  global : Int
+  cfg    : String
+
+def parseEng (cfg : List String) : Option EngSec := do
+  let global ← (← kv? cfg "global").toInt?
+  let mw ← parseMw (← kv? cfg "mw")
+  let groups ← parseGroups (← kv? cfg "groups")
+  pure { eng := Eng.build global mw groups, groups := groups, global := global, cfg := joinSp cfg }
+
+def groupClass (opts : List RouteOpt) : String :=
+  let hasT := opts.any (fun o => match o with | .timeout _ => true | _ => false)
+  let hasS := opts.any (fun o => o == .sse)
+  if hasT && hasS then (if groupTimeout opts = 0 then "timeout-then-sse" else "sse-then-timeout")
+  else if hasS then "sse-only"
+  else if hasT then (if groupTimeout opts > 0 then "own-timeout" else "own-timeout<=0")
+  else "no-option"
+
+def runEngLine (r : Report) (sec : Nat) (l : Line) (es : EngSec) : Report :=
+  let ms (x : Int) : Int := x * 1000000
+  match l.op with
+  | ["edl", g, p, hdr] =>
+    match g.toNat?, parseParent p, parseHdr hdr with
+    | some gi, some parent, some h =>
+      match es.eng.duration gi, es.groups[gi]? with
+      | some dur, some opts =>
+        let own := groupTimeout opts
+        let dl := restDeadline dur h (parent.map ms) 0
+        let model := "dl=" ++ dlClassT (parent.map ms) dl (dur / 1000000)
+        let impl := joinSp l.obs
+        let wraps := restWraps dur h
+        let others := (es.groups.zipIdx.filter (fun p => p.2 ≠ gi)).map (fun p => groupTimeout p.1)
+        let r := r.addCover ("eng-group-" ++ groupClass opts)
+        let r := r.addCover ("eng-" ++ (model.splitOn "@").headD "" ++ (if wraps then "-wrapped" else "-unwrapped"))
+        let r := if es.eng.mw ≠ .on then r.addCover "eng-middleware-off-or-custom-chain" else r
+        let r := if wraps && own ≤ 0 && others.any (fun t => t > ms es.global) then r.addCover "eng-global-next-to-longer-route" else r
+        let r := if wraps && own > 0 && own < ms es.global then r.addCover "eng-route-shorter-than-global" else r
+        let r := if wraps && own > ms es.global then r.addCover "eng-route-longer-than-global" else r
+        let r := if wraps && others.any (fun t => t > 0 && t < dur) then r.addCover "eng-next-to-shorter-route" else r
+        let r := if model ≠ impl then r.mismatch sec l.idx model impl else r
+        -- monitor: the property's timeout of this route is its own if positive, else the global one
+        let specT := Spec.routeTimeout own es.global
+        let specWraps := es.eng.mw == .on && restWraps specT h
+        if dlViolates (obsOf l "dl") parent specWraps (specT / 1000000) then
+          r.violation sec l.idx s!"deadline seen by the work is later than min(caller's deadline, now+timeout) of its route (own timeout if set, else the global one): cfg=[{es.cfg}] op=[{joinSp l.op}] impl=[{impl}]"
+        else r
+      | _, _ => r.mismatch sec l.idx "bad-op(no such group)" (joinSp l.op)
+    | _, _, _ => r.mismatch sec l.idx "bad-op" (joinSp l.op)
+  | ["emax"] =>
+    let model := s!"max={es.eng.timeout / 1000000}"
+    let impl := joinSp l.obs
+    let r := r.addCover "eng-max"
+    if model ≠ impl then r.mismatch sec l.idx model impl else r
+  | _ => r.mismatch sec l.idx "bad-op" (joinSp l.op)
+
 def runSection (r : Report) (s : Section) : Report :=
   s.lines.foldl (fun r l =>
     let r := { r with ops := r.ops + 1 }
@@ -459,6 +542,14 @@ def runSection (r : Report) (s : Section) : Report :=
     | some "rest" => runRestLine r s.idx l true
     | some "race" => runRestLine r s.idx l false
     | some "dl" => runDlSelLine r s.idx l
+    | some "edl" | some "emax" =>
+      (match parseEng s.cfg with
+        | some es => runEngLine r s.idx l es
+        | none => r.mismatch s.idx l.idx "bad-cfg" (joinSp s.cfg))
+    | some "erest" =>
+      (match parseEng s.cfg with
+        | some es => runRestLine r s.idx l true (some es.eng)
+        | none => r.mismatch s.idx l.idx "bad-cfg" (joinSp s.cfg))
     | some "sel" => runSelLine r s.idx l
     | some "selrace" => runSelRaceLine r s.idx l
     | _ => r.mismatch s.idx l.idx "bad-op" (joinSp l.op)) r
